@@ -75,6 +75,18 @@ theorem canonKey_toLower (s : Bytes) (hs : s.all validHeaderFieldByte = true) : 
     simpa [valid_toLowerB] using hs c hc
   simp [canonKey, toLower, hs, this, canonLoop_toLower]
 
+/-- "In any case": two names that differ only in letter case have the same canonical key (the
+key under which net/http stores the header), provided one of them is a token. -/
+theorem canonKey_eq_of_toLower_eq (name tok : Bytes) (hn : name.all validHeaderFieldByte = true)
+    (hc : toLower tok = toLower name) : canonKey tok = canonKey name := by
+  have ht : tok.all validHeaderFieldByte = true := by
+    have h1 : (toLower tok).all validHeaderFieldByte = tok.all validHeaderFieldByte := by
+      simp only [toLower, List.all_map]; congr 1; funext c; simp [valid_toLowerB]
+    have h2 : (toLower name).all validHeaderFieldByte = name.all validHeaderFieldByte := by
+      simp only [toLower, List.all_map]; congr 1; funext c; simp [valid_toLowerB]
+    rw [← h1, hc, h2, hn]
+  rw [← canonKey_toLower tok ht, hc, canonKey_toLower name hn]
+
 /-! ### header algebra -/
 
 theorem mem_keys_delete {h : Header} {k k' : Bytes} : k' ∈ keys (delete h k) ↔ k' ∈ keys h ∧ k' ≠ k := by
@@ -244,6 +256,10 @@ theorem kept_index {h : Header} {k : Bytes} (hk : k ∉ removedKeys h) : index (
 theorem removed_index {h : Header} {k : Bytes} (hk : k ∈ removedKeys h) : index (removeHopByHop h) k = [] :=
   index_of_not_mem_keys (removed_not_in_keys hk)
 
+/-- RFC 7230 §6.1 (and the field definitions that say "hop-by-hop"): the fixed set. -/
+def rfcHopByHop : List Bytes := ["Connection", "Keep-Alive", "Proxy-Authenticate", "Proxy-Authorization", "TE", "Trailer",
+  "Transfer-Encoding", "Upgrade"].map strBytes
+
 theorem keys_removeHopByHop_subset {h : Header} {k : Bytes} (hk : k ∈ keys (removeHopByHop h)) : k ∈ keys h := by
   rw [removeHopByHop_eq_filter] at hk
   simp only [keys, List.mem_map, List.mem_filter] at hk ⊢
@@ -282,6 +298,14 @@ def xffLine (env : Env) (old : List Bytes) : Bytes :=
 theorem kne : kXFProto ≠ kXFF ∧ kXFHost ≠ kXFF ∧ kXFUrl ≠ kXFF ∧ kXFHost ≠ kXFProto ∧ kXFUrl ≠ kXFProto ∧ kXFUrl ≠ kXFHost
     ∧ kVia ≠ kXFF ∧ kVia ≠ kXFProto ∧ kVia ≠ kXFHost ∧ kVia ≠ kXFUrl ∧ kVia ≠ kCL ∧ kCL ≠ kXFF ∧ kCL ≠ kXFProto ∧ kCL ≠ kXFHost
     ∧ kCL ≠ kXFUrl ∧ kTE ≠ kXFF ∧ kTE ≠ kXFProto ∧ kTE ≠ kXFHost ∧ kTE ≠ kXFUrl ∧ kTE ≠ kCL ∧ kTE ≠ kVia := by decide
+
+theorem kVia_notin_fwdKeys : kVia ∉ fwdKeys := by decide
+theorem kCL_notin_fwdKeys : kCL ∉ fwdKeys := by decide
+theorem kTE_notin_fwdKeys : kTE ∉ fwdKeys := by decide
+theorem kVia_ne_kCL : kVia ≠ kCL := by decide
+theorem kTE_ne_kCL : kTE ≠ kCL := by decide
+theorem fwdKeys_ne_kCL : ∀ k ∈ fwdKeys, k ≠ kCL := by decide
+theorem fwdKeys_ne_kVia : ∀ k ∈ fwdKeys, k ≠ kVia := by decide
 
 theorem fwd_index_other {env : Env} {h : Header} {k : Bytes} (hk : k ∉ fwdKeys) :
     index (fwdHeader env h) k = index h k := by
@@ -520,75 +544,173 @@ theorem framing_other (h : Header) :
 /-! ### the generated stack order, unfolded -/
 
 /-- `NewStack`'s request side, as the composition the generated order denotes. If the order in
-the source changes this lemma (and everything stated about the stack) stops checking. -/
+the source changes (or error aggregation is switched off) these lemmas, and everything stated
+about the stack, stop checking. -/
 theorem reqMod_hbh : reqMod "header.NewHopByHopModifier" = hbhReq := by simp [reqMod]
 theorem reqMod_fwd : reqMod "header.NewForwardedModifier" = fwdReq := by simp [reqMod]
 theorem reqMod_framing : reqMod "header.NewBadFramingModifier" = framingReq := by simp [reqMod]
 theorem reqMod_via : reqMod "header.NewViaModifier" = viaReq := by simp [reqMod]
 theorem reqMod_inner : reqMod "fifo.NewGroup" = fun _ s => (s, none) := by simp [reqMod]
 
+/-- What the via modifier is handed inside the stack: the framing modifier ran first (on the
+header as received), then hop-by-hop removal, then the forwarded modifier. -/
+def preVia (env : Env) (h : Header) : Header := fwdHeader env (removeHopByHop (framingHeader h).1)
+
+/-- The framing modifier's verdict on the header as received, as a list of errors. -/
+def framingErrs (h : Header) : List Err := (framingHeader h).2.toList
+
 theorem stackReq_unfold (env : Env) (h : Header) :
     stackReq env h =
-      match framingHeader (fwdHeader env (removeHopByHop h)) with
-      | (h3, some e) => ({ hdr := h3 }, [e])
-      | (h3, none) =>
-        match viaReq env { hdr := h3 } with
-        | (s, none) => (s, [])
-        | (s, some e) => (s, [e]) := by
-  have ho : Generated.HttpSpec.requestOrder.map reqMod = [hbhReq, fwdReq, framingReq, viaReq, fun _ s => (s, none)] := by
+      ((viaReq env { hdr := preVia env h }).1, framingErrs h ++ (viaReq env { hdr := preVia env h }).2.toList) := by
+  have ho : Generated.HttpSpec.requestOrder.map reqMod = [framingReq, hbhReq, fwdReq, viaReq, fun _ s => (s, none)] := by
     simp only [Generated.HttpSpec.requestOrder, List.map_cons, List.map_nil, reqMod_hbh, reqMod_fwd, reqMod_framing, reqMod_via, reqMod_inner]
-  have ha : Generated.HttpSpec.aggregateErrors = false := rfl
-  unfold stackReq
+  have ha : Generated.HttpSpec.aggregateErrors = true := rfl
+  unfold stackReq preVia framingErrs
   rw [ho, ha]
-  simp only [runReq, hbhReq, fwdReq, framingReq]
-  rcases hf : framingHeader (fwdHeader env (removeHopByHop h)) with ⟨h3, e⟩
-  cases e with
-  | some e => simp
-  | none =>
-    simp only
-    rcases hv : viaReq env { hdr := h3 } with ⟨s, e⟩
-    cases e <;> simp [runReq]
+  rcases hf : framingHeader h with ⟨h1, e1⟩
+  rcases hv : viaReq env { hdr := fwdHeader env (removeHopByHop h1) } with ⟨s4, e2⟩
+  cases e1 <;> cases e2 <;> simp [runReq, framingReq, hbhReq, fwdReq, hf, hv]
 
 theorem resMod_hbh : resMod "header.NewHopByHopModifier" = hbhRes := by simp [resMod]
 theorem resMod_via : resMod "header.NewViaModifier" = viaRes := by simp [resMod]
 theorem resMod_inner : resMod "fifo.NewGroup" = fun _ s => (s, none) := by simp [resMod]
 
+/-- Response side: user group, via, hop-by-hop; all of them run (errors are aggregated). -/
 theorem stackRes_unfold (key : Bool) (s : ResS) :
-    stackRes key s = if key then ({ s with status := 400 }, [.loop]) else ({ s with hdr := removeHopByHop s.hdr }, []) := by
+    stackRes key s = if key then ({ hdr := removeHopByHop s.hdr, status := 400 }, [.loop])
+      else ({ s with hdr := removeHopByHop s.hdr }, []) := by
   have ho : Generated.HttpSpec.responseOrder.map resMod = [fun _ s => (s, none), viaRes, hbhRes] := by
     simp only [Generated.HttpSpec.responseOrder, List.map_cons, List.map_nil, resMod_hbh, resMod_via, resMod_inner]
-  have ha : Generated.HttpSpec.aggregateErrors = false := rfl
+  have ha : Generated.HttpSpec.aggregateErrors = true := rfl
   unfold stackRes
   rw [ho, ha]
   cases key <;> simp [runRes, viaRes, hbhRes]
 
-/-- The three ways the request side of the stack can end. -/
+/-- The two ways the request side of the stack can end (the framing verdict is reported in both). -/
 theorem stackReq_cases (env : Env) (h : Header) :
-    (∃ e, (framingHeader (fwdHeader env (removeHopByHop h))).2 = some e ∧
-        stackReq env h = ({ hdr := (framingHeader (fwdHeader env (removeHopByHop h))).1 }, [e])) ∨
-    ((framingHeader (fwdHeader env (removeHopByHop h))).2 = none ∧
-        hasLoop (join (index (framingHeader (fwdHeader env (removeHopByHop h))).1 kVia) commaSp) (tag env) = true ∧
-        stackReq env h = ({ hdr := (framingHeader (fwdHeader env (removeHopByHop h))).1, skip := true, loopKey := true }, [.loop])) ∨
-    ((framingHeader (fwdHeader env (removeHopByHop h))).2 = none ∧
-        hasLoop (join (index (framingHeader (fwdHeader env (removeHopByHop h))).1 kVia) commaSp) (tag env) = false ∧
-        stackReq env h = ({ hdr := set (framingHeader (fwdHeader env (removeHopByHop h))).1 kVia (viaLine env (index (framingHeader (fwdHeader env (removeHopByHop h))).1 kVia)) }, [])) := by
+    (hasLoop (join (index (preVia env h) kVia) commaSp) (tag env) = true ∧
+        stackReq env h = ({ hdr := preVia env h, skip := true, loopKey := true }, framingErrs h ++ [.loop])) ∨
+    (hasLoop (join (index (preVia env h) kVia) commaSp) (tag env) = false ∧
+        stackReq env h = ({ hdr := set (preVia env h) kVia (viaLine env (index (preVia env h) kVia)) }, framingErrs h)) := by
   rw [stackReq_unfold]
-  rcases hf : framingHeader (fwdHeader env (removeHopByHop h)) with ⟨h3, e⟩
-  cases e with
-  | some e => exact Or.inl ⟨e, rfl, rfl⟩
-  | none =>
-    cases hl : hasLoop (join (index h3 kVia) commaSp) (tag env) with
-    | true =>
-      refine Or.inr (Or.inl ⟨rfl, rfl, ?_⟩)
-      show (match viaReq env { hdr := h3 } with
-        | (s, none) => (s, [])
-        | (s, some e) => (s, [e])) = _
-      rw [viaReq_loop env { hdr := h3 } hl]
-    | false =>
-      refine Or.inr (Or.inr ⟨rfl, rfl, ?_⟩)
-      show (match viaReq env { hdr := h3 } with
-        | (s, none) => (s, [])
-        | (s, some e) => (s, [e])) = _
-      rw [viaReq_noloop env { hdr := h3 } hl]
+  cases hl : hasLoop (join (index (preVia env h) kVia) commaSp) (tag env) with
+  | true =>
+    refine Or.inl ⟨rfl, ?_⟩
+    rw [viaReq_loop env { hdr := preVia env h } hl]
+    rfl
+  | false =>
+    refine Or.inr ⟨rfl, ?_⟩
+    rw [viaReq_noloop env { hdr := preVia env h } hl]
+    simp
+
+/-! ### what reaches the via modifier -/
+
+theorem kConnection_ne_kCL : kConnection ≠ kCL := by decide
+
+theorem connTokens_framing (h : Header) : connTokens (framingHeader h).1 = connTokens h := by
+  unfold connTokens
+  rw [(framing_other h).1 kConnection kConnection_ne_kCL]
+
+/-- The framing modifier writes `Content-Length` only, so it does not change what is hop-by-hop. -/
+theorem removedKeys_framing (h : Header) : removedKeys (framingHeader h).1 = removedKeys h := by
+  unfold removedKeys
+  rw [connTokens_framing]
+
+theorem preVia_index_other {env : Env} {h : Header} {k : Bytes} (hf : k ∉ fwdKeys) :
+    index (preVia env h) k = if k ∈ removedKeys h then [] else index (framingHeader h).1 k := by
+  unfold preVia
+  rw [fwd_index_other hf]
+  split
+  · next hm => exact removed_index (by rw [removedKeys_framing]; exact hm)
+  · next hm => exact kept_index (by rw [removedKeys_framing]; exact hm)
+
+theorem preVia_keys {env : Env} {h : Header} {k : Bytes} (hm : k ∈ keys (preVia env h)) :
+    k ∈ fwdKeys ∨ (k ∈ keys h ∧ k ∉ removedKeys h) := by
+  unfold preVia at hm
+  rcases fwd_keys hm with h1 | h1
+  · exact Or.inl h1
+  · refine Or.inr ⟨(framing_other h).2 k (keys_removeHopByHop_subset h1), ?_⟩
+    intro hr
+    exact removed_not_in_keys (by rw [removedKeys_framing]; exact hr) h1
+
+/-! ### helper lemmas of the element-level and exchange theorems -/
+
+theorem framingErrs_no_loop (h : Header) : Err.loop ∉ framingErrs h := by
+  unfold framingErrs framingHeader
+  cases hc : framingCL h with
+  | none => simp
+  | some h1 =>
+    rcases framingTE_err h1 with h0 | h0 <;> simp [h0]
+
+theorem removeHopByHop_nil : removeHopByHop [] = [] := by rw [removeHopByHop_eq_filter]; rfl
+
+/-- `strings.Split` distributes over a separator: the pieces of `a ++ sep ++ b` are the pieces of
+`a` followed by the pieces of `b`. -/
+theorem splitAux_append_sep (sep : UInt8) (b : Bytes) : ∀ (a cur : Bytes),
+    splitAux sep (a ++ sep :: b) cur = splitAux sep a cur ++ splitAux sep b [] := by
+  intro a
+  induction a with
+  | nil => intro cur; simp [splitAux]
+  | cons c r ih =>
+    intro cur
+    by_cases hc : c = sep
+    · subst hc; simp [splitAux, ih]
+    · have : (c == sep) = false := by simpa using hc
+      simp [splitAux, this, ih]
+
+theorem split_append_sep (a b : Bytes) (sep : UInt8) : split (a ++ sep :: b) sep = split a sep ++ split b sep :=
+  splitAux_append_sep sep b a []
+
+theorem splitAux_no_sep (sep : UInt8) : ∀ (a cur : Bytes), sep ∉ a → splitAux sep a cur = [cur.reverse ++ a] := by
+  intro a
+  induction a with
+  | nil => intro cur _; simp [splitAux]
+  | cons c r ih =>
+    intro cur hn
+    have hc : ¬ c = sep := fun h => hn (by simp [h])
+    have hr : sep ∉ r := fun h => hn (by simp [h])
+    have : (c == sep) = false := by simpa using hc
+    simp [splitAux, this, ih (c :: cur) hr]
+
+theorem split_no_sep (a : Bytes) (sep : UInt8) (hn : sep ∉ a) : split a sep = [a] := by
+  show splitAux sep a [] = [a]
+  simpa using splitAux_no_sep sep a [] hn
+
+/-- A line written as "existing chain, entry": its comma-separated elements are the elements of
+the existing chain, unchanged and in order, followed by exactly one more — the entry behind the
+space of ", ". -/
+theorem appended_elements (chain entry : Bytes) (hc : comma ∉ entry) :
+    split (chain ++ commaSp ++ entry) comma = split chain comma ++ [32 :: entry] := by
+  have h32 : comma ∉ (32 :: entry) := by
+    intro hm
+    rcases List.mem_cons.mp hm with h | h
+    · exact absurd h (by decide)
+    · exact hc h
+  have : chain ++ commaSp ++ entry = chain ++ comma :: (32 :: entry) := by
+    simp [commaSp, comma, strBytes, List.append_assoc]
+  rw [this, split_append_sep, split_no_sep _ _ h32]
+
+theorem digit_bounds (c : Char) (hd : c.isDigit = true) : 48 ≤ c.toNat ∧ c.toNat ≤ 57 := by
+  unfold Char.isDigit at hd
+  simp only [Bool.and_eq_true, decide_eq_true_eq, ge_iff_le] at hd
+  exact ⟨UInt32.le_iff_toNat_le.mp hd.1, UInt32.le_iff_toNat_le.mp hd.2⟩
+
+/-- Decimal digits contain no comma. -/
+theorem natDigits_no_comma (n : Nat) : comma ∉ natDigits n := by
+  unfold natDigits
+  intro hm
+  obtain ⟨c, hc, he⟩ := List.mem_map.mp hm
+  have hb := digit_bounds c (Nat.isDigit_of_mem_toDigits (by decide) (by decide) hc)
+  have h44 : (UInt8.ofNat c.toNat).toNat = 44 := by rw [he]; rfl
+  rw [UInt8.toNat_ofNat'] at h44
+  omega
+
+/-- The proxy's own Via entry contains no comma when its name and boundary contain none (the
+protocol version is digits and a dot). -/
+theorem viaEntry_no_comma (env : Env) (hn : comma ∉ env.name) (hb : comma ∉ env.boundary) : comma ∉ viaEntry env := by
+  have hd : ∀ n, comma ∉ natDigits n := natDigits_no_comma
+  unfold viaEntry tag
+  simp only [List.mem_append, List.mem_cons, List.not_mem_nil, not_or]
+  refine ⟨⟨⟨⟨hd _, by decide⟩, hd _⟩, by decide⟩, ⟨hn, by decide⟩, hb⟩
 
 end Martian.HttpSpec
